@@ -4,6 +4,19 @@
 
 package volatility
 
+// Upper Band = SMA(High * (1 + 4 * (High - Low) / (High + Low))), Middle Band = SMA(Closing),
+// Lower Band = SMA(Low * (1 - 4 * (High - Low) / (High + Low)))
+//@ stream accUpS(h stream, l stream)[j] = h[j] * (1 + 4 * ((h[j] - l[j]) / (h[j] + l[j])))
+//@ stream accLoS(h stream, l stream)[j] = l[j] * (1 + (0 - 4) * ((h[j] - l[j]) / (h[j] + l[j])))
+//@ lemma acc_pointwise(h real, l real)
+//@ requires[C15] 0 < l && l <= h
+//@ ensures[C15] h * (1 + 4 * ((h - l) / (h + l))) >= h && l * (1 + (0 - 4) * ((h - l) / (h + l))) <= l
+//@ lemma accS_ordered(h stream, l stream, c stream, P int, k int)
+//@ requires[C15] P >= 1 && k >= 0 && (forall j :: k <= j && j < k + P ==> 0 < l[j] && barok(h, l, c, j))
+//@ ensures[C15] smaS(accUpS(h, l), P)[k] >= smaS(c, P)[k] && smaS(c, P)[k] >= smaS(accLoS(h, l), P)[k]
+//@ use forall j :: acc_pointwise(h[j], l[j])
+//@ use sma_mono(c, accUpS(h, l), P, k)
+//@ use sma_mono(accLoS(h, l), c, P, k)
 //@ func AccelerationBands.Compute
 //@ requires a.Period >= 1 && consumed(high) == 0 && consumed(low) == 0 && consumed(closing) == 0 && len(high) == len(low) && len(high) == len(closing)
 //@ ensures[C02] len(result0) == max(0, len(high) - (a.IdlePeriod())) && len(result1) == max(0, len(high) - (a.IdlePeriod())) && len(result2) == max(0, len(high) - (a.IdlePeriod()))
@@ -11,6 +24,13 @@ package volatility
 //@ ensures[C04] forall kk :: 0 <= kk && kk < len(result0) ==> hor(result0, kk) <= max(hor(high, kk + (a.IdlePeriod())), max(hor(low, kk + (a.IdlePeriod())), hor(closing, kk + (a.IdlePeriod()))))
 //@ ensures[C04] forall kk :: 0 <= kk && kk < len(result1) ==> hor(result1, kk) <= max(hor(high, kk + (a.IdlePeriod())), max(hor(low, kk + (a.IdlePeriod())), hor(closing, kk + (a.IdlePeriod()))))
 //@ ensures[C04] forall kk :: 0 <= kk && kk < len(result2) ==> hor(result2, kk) <= max(hor(high, kk + (a.IdlePeriod())), max(hor(low, kk + (a.IdlePeriod())), hor(closing, kk + (a.IdlePeriod()))))
+//@ step[C01,C15] "factors" forall j :: 0 <= j && j < len(high) ==> res(Multiply, 0)[j] == accUpS(high, low)[j] && res(Multiply, 1)[j] == accLoS(high, low)[j]
+//@ use psum_cong(res(Multiply, 0), accUpS(high, low), _)
+//@ use psum_cong(res(Multiply, 1), accLoS(high, low), _)
+//@ step[C01,C15] "formula" forall k :: 0 <= k && k < len(result1) ==> result0[k] == smaS(accUpS(high, low), a.Period)[k] && result1[k] == smaS(closing, a.Period)[k] && result2[k] == smaS(accLoS(high, low), a.Period)[k]
+//@ ensures[C01] "formula" forall k :: 0 <= k && k < len(result1) ==> result0[k] == smaS(accUpS(high, low), a.Period)[k] && result1[k] == smaS(closing, a.Period)[k] && result2[k] == smaS(accLoS(high, low), a.Period)[k]
+//@ use accS_ordered(high, low, closing, a.Period, _)
+//@ ensures[C15] "ordered" forall k :: 0 <= k && k < len(result1) && (forall j :: k <= j && j < k + a.Period ==> 0 < low[j] && barok(high, low, closing, j)) ==> result0[k] >= result1[k] && result1[k] >= result2[k]
 
 // TR = Max((High - Low), (High - Previous Closing), (Previous Closing - Low)); ATR = MA of TR
 //@ stream trS(h stream, l stream, c stream)[k] = max(h[k+1] - l[k+1], max(h[k+1] - c[k], c[k] - l[k+1]))
